@@ -150,7 +150,8 @@ class FullOps(TorchCalls):
         if name == "astype":
             d = args[0] if args else kwargs.get("dtype")
             tag = d.tag if isinstance(d, MetaV) else (self.ext_dtype(d.name) if isinstance(d, ExtV) else "Mixed")
-            return t.but(dtype=tag, alias=False)
+            keep = self.interp.truth(kwargs.get("copy", TRUE)) is False  # astype(copy=False) may return the array itself
+            return t.but(dtype=tag, alias=t.alias and keep)
         if name in ("to", "type", "double", "float", "half", "long", "int", "bool"):
             dt = t.dtype
             if name == "to":
@@ -273,6 +274,10 @@ class FullOps(TorchCalls):
         np_ = lib.startswith("numpy")
         kind = "ndarray" if np_ else "tensor"
         a0 = tv_of(args[0]) if args else None
+        if "out" in kwargs and kwargs["out"] != NONE:
+            o = tv_of(kwargs["out"])
+            self.ev("inplace", node, alias=bool(o is not None and o.alias), target="out=")
+            kwargs = {k: v for k, v in kwargs.items() if k != "out"}
         if fn == "isfinite" or fn in ("isnan", "isinf"):
             if a0 is not None and a0.alias and a0.origin == frozenset(["matrix"]) and a0.axes == ("R", "C"):
                 self.ev("finite_check", node)
@@ -553,7 +558,13 @@ class FullOps(TorchCalls):
                 atol = tv_of(kwargs.get("atol")) if "atol" in kwargs else None
                 if atol is not None and atol.deg != Z:
                     self.ev("scale_branch", node, left=str(a0.deg), right=str(atol.deg), why="pinv with an absolute tolerance")
-            return a0.but(axes=(a0.axes[1], a0.axes[0]), deg=deg_scale(a0.deg, -1), alias=False)
+            zz = a0.z
+            if fn == "pinv" and "C" in a0.axes and not any(k in kwargs for k in ("rcond", "rtol", "atol")) and len(args) < 2:
+                # default rtol = max(rows, cols)·eps: the truncation threshold depends on the number of columns
+                if zz:
+                    self.clear("z", "torch.linalg.pinv of a matrix with a column axis uses the default tolerance max(m, n)·eps, which grows with the number of columns", node)
+                zz = False
+            return a0.but(axes=(a0.axes[1], a0.axes[0]), deg=deg_scale(a0.deg, -1), alias=False, z=zz)
         if fn in ("solve", "lstsq"):
             b = tv_of(args[1])
             return self.matmul(a0.but(axes=(a0.axes[1], a0.axes[0]), deg=deg_scale(a0.deg, -1)), b, node)
@@ -597,6 +608,8 @@ class FullOps(TorchCalls):
         if fn == "vmap":
             self.ev("vmap", node)
             return VmapV(args[0])
+        if fn in ("split", "tensor_split") and a0 is not None:
+            return self.tensor_method(a0, fn, args[1:], kwargs, node, env)
         if lib == "torch.autograd." and fn in ("grad", "backward"):
             return self.autograd(fn, args, kwargs, node, env)
         return self.unk(f"operator {lib}{fn}", node)
